@@ -1,6 +1,6 @@
 (* C16: the noisy SAR converter with all strengths and noises equal to zero computes exactly the same
-   code as the noise-free converter (binary64 models of both, as coded), for resolutions up to 53 bits,
-   every finite reference voltage >= 0 and EVERY voltage (NaN and infinities included). *)
+   code as the noise-free converter (models of both, as coded), for EVERY resolution, every finite
+   reference voltage >= 0 and EVERY voltage (NaN and infinities included). *)
 From Coq Require Import ZArith List Bool Reals Lia Lra.
 From Flocq Require Import Core BinarySingleNaN.
 From PyxelV Require Import Lib.B64 Model.Adc Proofs.AdcChain Proofs.AdcFloat Proofs.AdcRange Proofs.AdcSar.
@@ -107,88 +107,50 @@ Qed.
 Lemma mul_zero (r : b64) : is_finite r = true -> exists s, bmul r pzero = B754_zero s.
 Proof. destruct r; try discriminate; intros _; eexists; reflexivity. Qed.
 
-Lemma dv_mul_table :
-  forallb (fun k => match bmul (bofZ (2 ^ k)) (bofZ 1), bmul (bofZ (2 ^ k)) pzero with
-                    | a, B754_zero _ => match a, bofZ (2 ^ k) with
-                                        | B754_finite s m e _, B754_finite s' m' e' _ =>
-                                            Bool.eqb s s' && Pos.eqb m m' && Z.eqb e e'
-                                        | _, _ => false end
-                    | _, _ => false end) (zrange 0 53) = true.
-Proof. vm_compute. reflexivity. Qed.
-
-Lemma dv_mul (k : Z) : (0 <= k <= 52)%Z ->
-  feq (bmul (bofZ (2 ^ k)) (bofZ 1)) (bofZ (2 ^ k)) /\ exists s, bmul (bofZ (2 ^ k)) pzero = B754_zero s.
-Proof.
-  intros H. generalize dv_mul_table. rewrite forallb_forall. intros T.
-  specialize (T k (in_zrange 0 53 k ltac:(lia))).
-  destruct (bmul (bofZ (2 ^ k)) pzero) as [s0|s0| |s0 m0 e0 B0]; try (destruct (bmul (bofZ (2 ^ k)) (bofZ 1)); discriminate).
-  split; [|eexists; reflexivity].
-  destruct (bmul (bofZ (2 ^ k)) (bofZ 1)) as [s|s| |s m e B]; try discriminate.
-  destruct (bofZ (2 ^ k)) as [s'|s'| |s' m' e' B']; try discriminate.
-  apply andb_prop in T. destruct T as [T T3]. apply andb_prop in T. destruct T as [T1 T2].
-  apply Bool.eqb_prop in T1. apply Pos.eqb_eq in T2. apply Z.eqb_eq in T3. subst.
-  simpl. f_equal. apply Eqdep_dec.UIP_dec. apply Bool.bool_dec.
-Qed.
-
 Definition seq_state (s t : sar_state) : Prop :=
-  feq (acc s) (acc t) /\ feq (rem s) (rem t) /\ feq (ref s) (ref t) /\
+  acc s = acc t /\ feq (rem s) (rem t) /\ feq (ref s) (ref t) /\
   is_finite (ref t) = true /\ 0 <= B2R (ref t).
 
-Lemma dv_exact (bits i : Z) : (0 <= i)%Z -> (i < bits)%Z -> (bits <= 53)%Z ->
-  bmul (bofZ (2 ^ (bits - (i + 1)))) (bofZ 1) = bofZ (2 ^ (bits - (i + 1))).
-Proof.
-  intros Hi Hi' Hb. destruct (dv_mul (bits - (i + 1)) ltac:(lia)) as [D1 _].
-  destruct (feq_cases _ _ D1) as [E|[s [s' [_ E]]]]; [exact E|]. exfalso.
-  assert (P : (0 < 2 ^ (bits - (i + 1)))%Z) by (apply Z.pow_pos_nonneg; lia).
-  assert (2 ^ (bits - (i + 1)) <= 2 ^ 52)%Z by (apply Z.pow_le_mono_r; lia).
-  destruct (bofZ_finite_exact (2 ^ (bits - (i + 1)))) as [_ EE]; [lia|].
-  rewrite E in EE. simpl in EE. apply IZR_lt in P. lra.
-Qed.
-
 Lemma sar0_step_sim (bits i : Z) (s t : sar_state) :
-  (0 <= i)%Z -> (i < bits)%Z -> (bits <= 53)%Z ->
   seq_state s t -> seq_state (sar0_step bits s i) (sar_step bits t i).
 Proof.
-  intros Hi Hi' Hb [Ha [Hr [Hf [Ff Pf]]]].
+  intros [Ha [Hr [Hf [Ff Pf]]]].
   unfold sar0_step, sar_step, seq_state. cbn [acc rem ref].
   set (r := badd (ref s) pzero).
   assert (Hrf : feq r (ref t)) by (eapply feq_trans; [apply add_pzero|exact Hf]).
   assert (Fr : is_finite r = true) by (rewrite (feq_finite _ _ Hrf); exact Ff).
   rewrite (feq_bge _ _ _ _ Hr Hrf).
-  rewrite (digital_value_small bits i Hi Hi' Hb).
-  destruct (dv_mul (bits - (i + 1)) ltac:(lia)) as [_ [sz D0]].
   destruct (half_ref (ref t) Ff Pf) as [Fh Ph].
   destruct (bge (rem t) (ref t)).
   - split; [|split; [|split; [|split]]]; try assumption.
-    + rewrite (dv_exact bits i Hi Hi' Hb). apply feq_badd. exact Ha.
+    + rewrite Ha. lia.
     + eapply feq_trans; [apply feq_bsub_l; exact Hr|]. apply feq_bsub_r.
       eapply feq_trans; [apply mul_one; exact Fr|exact Hrf].
     + apply feq_half. exact Hrf.
   - split; [|split; [|split; [|split]]]; try assumption.
-    + rewrite D0. eapply feq_trans; [|exact Ha].
-      destruct (acc s) as [sa|sa| |sa ma ea Ba]; try apply feq_refl. destruct sa, sz; exact I.
+    + rewrite Ha. lia.
     + destruct (mul_zero r Fr) as [s0 E0]. rewrite E0.
       eapply feq_trans; [apply sub_zero|exact Hr].
     + apply feq_half. exact Hrf.
 Qed.
 
-Lemma sar0_loop_sim (bits : Z) (Hb : (bits <= 53)%Z) : forall (n : nat) (i : Z) (s t : sar_state),
-  (0 <= i)%Z -> (i + Z.of_nat n <= bits)%Z -> seq_state s t ->
-  seq_state (sar0_loop bits n i s) (sar_loop bits n i t).
+Lemma sar0_loop_sim (bits : Z) : forall (n : nat) (i : Z) (s t : sar_state),
+  seq_state s t -> seq_state (sar0_loop bits n i s) (sar_loop bits n i t).
 Proof.
-  induction n as [|n IH]; intros i s t Hi Hn H; [exact H|].
-  cbn [sar0_loop sar_loop]. apply IH; try lia. apply sar0_step_sim; try lia. exact H.
+  induction n as [|n IH]; intros i s t H; [exact H|].
+  cbn [sar0_loop sar_loop]. apply IH. apply sar0_step_sim. exact H.
 Qed.
 
+(* for EVERY resolution and EVERY voltage (NaN, infinities included) *)
 Theorem sar0_eq_sar (w bits : Z) (vmax x : b64) :
-  (1 <= bits <= 53)%Z -> is_finite vmax = true -> 0 <= B2R vmax ->
+  is_finite vmax = true -> 0 <= B2R vmax ->
   sar0_code w bits vmax x = sar_code w bits vmax x.
 Proof.
-  intros Hb Fv Pv. unfold sar0_code, sar_code, sar_acc.
+  intros Fv Pv. unfold sar0_code, sar_code, sar_acc.
   destruct (half_ref vmax Fv Pv) as [Fh Ph].
-  set (s0 := {| acc := pzero; rem := x; ref := bdiv vmax (bofZ 2) |}).
+  set (s0 := {| acc := 0; rem := x; ref := bdiv vmax (bofZ 2) |}).
   assert (H0 : seq_state s0 s0).
   { unfold seq_state, s0; cbn [acc rem ref]. repeat split; try apply feq_refl; assumption. }
-  generalize (sar0_loop_sim bits ltac:(lia) (Z.to_nat bits) 0 s0 s0 ltac:(lia) ltac:(lia) H0).
-  intros [Ha _]. rewrite (feq_btruncZ _ _ Ha). reflexivity.
+  generalize (sar0_loop_sim bits (Z.to_nat bits) 0 s0 s0 H0).
+  intros [Ha _]. rewrite Ha. reflexivity.
 Qed.
